@@ -3,6 +3,7 @@ package main
 import (
 	"fmt"
 	"math"
+	"math/rand"
 	"strconv"
 	"strings"
 	"unsafe"
@@ -233,6 +234,144 @@ func aliasCase(c *Ctx, g orb.Geometry, slots []int, j, i int) {
 	c.Case("alias", gs(g)+" "+slotsString(slots)+" "+strconv.Itoa(j)+" "+strconv.Itoa(i))
 }
 
+// sameMemory: the non-empty point slices of a and of b (traversal order) are pairwise the same
+// slice (same first element address, same length).
+func sameMemory(a, b orb.Geometry) bool {
+	var sa, sb [][]orb.Point
+	pointSlices(a, &sa)
+	pointSlices(b, &sb)
+	ne := func(ss [][]orb.Point) [][]orb.Point {
+		var out [][]orb.Point
+		for _, s := range ss {
+			if len(s) > 0 {
+				out = append(out, s)
+			}
+		}
+		return out
+	}
+	sa, sb = ne(sa), ne(sb)
+	if len(sa) != len(sb) {
+		return false
+	}
+	for i := range sa {
+		if &sa[i][0] != &sb[i][0] || len(sa[i]) != len(sb[i]) {
+			return false
+		}
+	}
+	return true
+}
+
+// nilIfaceMembers replaces members of collections (at any depth) by the nil interface.
+func nilIfaceMembers(r *rand.Rand, g orb.Geometry, p int) orb.Geometry {
+	if c, ok := g.(orb.Collection); ok {
+		for i := range c {
+			if r.Intn(p) == 0 {
+				c[i] = nil
+			} else {
+				c[i] = nilIfaceMembers(r, c[i], p)
+			}
+		}
+	}
+	return g
+}
+
+// genNilColl: a collection (possibly nested) with nil-interface members in front of, between and
+// behind real members, next to typed nil and empty members.
+func genNilColl(r *rand.Rand, o GenOpts) orb.Geometry {
+	n := 1 + r.Intn(4)
+	c := make(orb.Collection, n)
+	o1 := o
+	o1.TopNil = false
+	for i := range c {
+		switch r.Intn(5) {
+		case 0:
+			c[i] = nil
+		case 1: // a typed nil or an empty member
+			c[i] = []orb.Geometry{orb.MultiPoint(nil), orb.LineString(nil), orb.Ring(nil), orb.MultiLineString(nil),
+				orb.Polygon(nil), orb.MultiPolygon(nil), orb.Collection(nil), orb.MultiPoint{}, orb.Polygon{}, orb.Collection{},
+				orb.Polygon{nil}, orb.MultiPolygon{nil}, orb.MultiLineString{nil}, orb.Collection{nil}}[r.Intn(14)]
+		default:
+			c[i] = genGeom(r, o1, 1)
+		}
+	}
+	return nilIfaceMembers(r, c, 5)
+}
+
+// flipNil returns g with nil-ness flipped somewhere: nil slices <-> empty slices (Equal must not see
+// it) or, when iface is set, nil interface members <-> empty collections (Equal must see it).
+func flipNil(r *rand.Rand, g orb.Geometry, iface bool) orb.Geometry {
+	fp := func(ps []orb.Point) []orb.Point {
+		if len(ps) != 0 {
+			return ps
+		}
+		if ps == nil {
+			return []orb.Point{}
+		}
+		return nil
+	}
+	switch v := g.(type) {
+	case nil:
+		if iface {
+			return orb.Collection{}
+		}
+		return nil
+	case orb.MultiPoint:
+		return orb.MultiPoint(fp(v))
+	case orb.LineString:
+		return orb.LineString(fp(v))
+	case orb.Ring:
+		return orb.Ring(fp(v))
+	case orb.MultiLineString:
+		if len(v) == 0 {
+			if v == nil {
+				return orb.MultiLineString{}
+			}
+			return orb.MultiLineString(nil)
+		}
+		for i := range v {
+			v[i] = fp(v[i])
+		}
+		return v
+	case orb.Polygon:
+		if len(v) == 0 {
+			if v == nil {
+				return orb.Polygon{}
+			}
+			return orb.Polygon(nil)
+		}
+		for i := range v {
+			v[i] = fp(v[i])
+		}
+		return v
+	case orb.MultiPolygon:
+		if len(v) == 0 {
+			if v == nil {
+				return orb.MultiPolygon{}
+			}
+			return orb.MultiPolygon(nil)
+		}
+		for i := range v {
+			v[i] = flipNil(r, v[i], iface).(orb.Polygon)
+		}
+		return v
+	case orb.Collection:
+		if len(v) == 0 {
+			if iface && r.Intn(2) == 0 {
+				return nil
+			}
+			if v == nil {
+				return orb.Collection{}
+			}
+			return orb.Collection(nil)
+		}
+		for i := range v {
+			v[i] = flipNil(r, v[i], iface)
+		}
+		return v
+	}
+	return g
+}
+
 func sbound(b orb.Bound) string {
 	return fb(b.Min[0]) + " " + fb(b.Min[1]) + " " + fb(b.Max[0]) + " " + fb(b.Max[1])
 }
@@ -250,8 +389,10 @@ func runC06(op string, in []string) string {
 		r := &tokReader{t: in}
 		switch op {
 		case "geom":
+			// values travel with their nil-ness (gsN): nil slices at every level, typed nil and
+			// nil-interface members of collections; the clone is reported the same way
 			g := r.geom()
-			before := gs(g)
+			before := gsN(g)
 			c := orb.Clone(g)
 			eq := orb.Equal(g, c)
 			ind := independent(g, c)
@@ -259,10 +400,10 @@ func runC06(op string, in []string) string {
 			if g != nil {
 				bs = sbound(g.Bound())
 			}
-			if gs(g) != before {
+			if gsN(g) != before {
 				return "mutated-argument"
 			}
-			return gs(c) + " " + b2s(eq) + " " + b2s(ind) + " " + bs
+			return gsN(c) + " " + b2s(eq) + " " + b2s(ind) + " " + bs
 		case "alias":
 			// <geom> k s_0..s_{k-1} j i: the original is <geom> with its j-th point slice replaced by the
 			// slice of slot s_j (internal sharing); report values, backing-array identities, the mutation
@@ -308,6 +449,27 @@ func runC06(op string, in []string) string {
 			o := rg.Orientation()
 			rg.Reverse()
 			return fmt.Sprintf("%d %d", o, rg.Orientation())
+		case "round", "roundd":
+			// round k <factor…> <geom>  : orb.Round(g, factor...)
+			// roundd <bits> <geom>      : orb.Round(g) with orb.DefaultRoundingFactor set to <bits>
+			// => <result> <the ARGUMENT after the call> <result is the argument's memory> <Round(result, …)>
+			var factors []int
+			if op == "round" {
+				k := r.int()
+				for i := 0; i < k; i++ {
+					factors = append(factors, r.int())
+				}
+			} else {
+				old := orb.DefaultRoundingFactor
+				orb.DefaultRoundingFactor = r.f()
+				defer func() { orb.DefaultRoundingFactor = old }()
+			}
+			g := r.geom()
+			res := orb.Round(g, factors...)
+			s1, s2 := gsN(res), gsN(g)
+			same := sameMemory(res, g)
+			res2 := orb.Round(res, factors...)
+			return s1 + " " + s2 + " " + b2s(same) + " " + gsN(res2)
 		}
 		return "badop"
 	})
@@ -338,11 +500,72 @@ func genBoundVal(c *Ctx, m CoordMode) orb.Bound {
 	return orb.Bound{Min: a, Max: b}
 }
 
+// copyGeom is the harness's own deep copy (nil-ness kept at every level).
+func copyGeom(g orb.Geometry) orb.Geometry {
+	cp := func(ps []orb.Point) []orb.Point {
+		if ps == nil {
+			return nil
+		}
+		return append([]orb.Point{}, ps...)
+	}
+	switch v := g.(type) {
+	case orb.MultiPoint:
+		return orb.MultiPoint(cp(v))
+	case orb.LineString:
+		return orb.LineString(cp(v))
+	case orb.Ring:
+		return orb.Ring(cp(v))
+	case orb.MultiLineString:
+		if v == nil {
+			return v
+		}
+		m := make(orb.MultiLineString, len(v))
+		for i := range v {
+			m[i] = cp(v[i])
+		}
+		return m
+	case orb.Polygon:
+		if v == nil {
+			return v
+		}
+		m := make(orb.Polygon, len(v))
+		for i := range v {
+			m[i] = cp(v[i])
+		}
+		return m
+	case orb.MultiPolygon:
+		if v == nil {
+			return v
+		}
+		m := make(orb.MultiPolygon, len(v))
+		for i := range v {
+			if v[i] != nil {
+				m[i] = copyGeom(v[i]).(orb.Polygon)
+			}
+		}
+		return m
+	case orb.Collection:
+		if v == nil {
+			return v
+		}
+		m := make(orb.Collection, len(v))
+		for i := range v {
+			m[i] = copyGeom(v[i])
+		}
+		return m
+	}
+	return g // nil, Point, Bound
+}
+
 // mutate returns a structurally close variant of g (for Equal's negative cases).
 func mutateGeom(c *Ctx, g orb.Geometry) orb.Geometry {
 	r := c.Rng
-	h := orb.Clone(g)
-	switch r.Intn(4) {
+	h := copyGeom(g) // not orb.Clone: the generator must not depend on the code under test
+	switch r.Intn(6) {
+	case 4: // nil slices <-> empty slices: still equal
+		return flipNil(r, h, false)
+	case 5: // … and nil interface members <-> empty collections: not equal any more
+		return flipNil(r, h, true)
 	case 0: // change one coordinate
 		n := 0
 		forEachVertex(h, func(*orb.Point) { n++ })
@@ -413,6 +636,55 @@ func polyToMLS(p orb.Polygon) orb.MultiLineString {
 	return m
 }
 
+// factor arguments of orb.Round: none (the default 1e6), the usual powers of ten, 0 (everything
+// becomes NaN), negative, non powers of ten, beyond 2^53 (float64(int) rounds), the extremes
+// (float64(MaxInt64) = 2^63, whose int() is out of range), and a second argument (ignored by the code)
+var c06Factors = [][]int{nil, nil, {1000000}, {1}, {10}, {100}, {100000}, {0}, {-1}, {-1000}, {3}, {7},
+	{1<<53 + 1}, {1 << 40}, {math.MaxInt64}, {math.MinInt64}, {math.MaxInt64 - 512}, {10, 0}}
+
+// values of orb.DefaultRoundingFactor (a float64 package variable): integers, non-integers (int(f)
+// truncates them for the members of a collection), out of int range, NaN, infinite, zero, negative
+var c06Defaults = []float64{1e6, 1e7, 100, 1, 0.5, 0.1, 2.5, 1e-3, 1e30, math.NaN(), math.Inf(1), -3, 0, 9223372036854775808}
+
+func factorString(fs []int) string {
+	s := strconv.Itoa(len(fs))
+	for _, f := range fs {
+		s += " " + strconv.Itoa(f)
+	}
+	return s
+}
+
+// tieCoords overwrites coordinates of the slices of g by values at and next to the rounding ties of
+// factor f: (n+0.5)/f and its two float neighbours.
+func tieCoords(r *rand.Rand, g orb.Geometry, f float64) orb.Geometry {
+	tie := func() float64 {
+		n := float64(r.Intn(4001) - 2000)
+		if r.Intn(4) == 0 {
+			n = float64(r.Int63n(1<<53)) * []float64{1, -1}[r.Intn(2)]
+		}
+		x := (n + 0.5) / f
+		switch r.Intn(3) {
+		case 0:
+			return math.Nextafter(x, math.Inf(1))
+		case 1:
+			return math.Nextafter(x, math.Inf(-1))
+		}
+		return x
+	}
+	forEachVertex(g, func(p *orb.Point) {
+		if r.Intn(2) == 0 {
+			p[r.Intn(2)] = tie()
+		}
+	})
+	switch v := g.(type) {
+	case orb.Point:
+		return orb.Point{tie(), v[1]}
+	case orb.Bound:
+		return orb.Bound{Min: orb.Point{tie(), v.Min[1]}, Max: v.Max}
+	}
+	return g
+}
+
 func genC06(c *Ctx) {
 	r := c.Rng
 	// fixed family: every AllGeometries value and the empty-member-first shapes
@@ -433,6 +705,84 @@ func genC06(c *Ctx) {
 		} {
 			c.Case("geom", gs(g))
 		}
+		// nil members at every level: nil rings / lines / polygons, typed nil and nil-INTERFACE members
+		// of collections (the nil branches of Ring.Clone, Polygon.Clone, orb.Clone, orb.Equal and the
+		// two nil tests of Collection.Bound, geometry.go:91-108), in front of / between / behind real members
+		pt := orb.Point{7, 8}
+		rg0 := orb.Ring{{0, 0}, {4, 0}, {4, 4}, {0, 0}}
+		nilFam := []func() orb.Geometry{
+			func() orb.Geometry { return orb.Collection{nil} },
+			func() orb.Geometry { return orb.Collection{nil, nil} },
+			func() orb.Geometry { return orb.Collection{nil, pt} },
+			func() orb.Geometry { return orb.Collection{pt, nil} },
+			func() orb.Geometry {
+				return orb.Collection{nil, orb.MultiPoint{}, nil, copyGeom(l).(orb.LineString), nil}
+			},
+			func() orb.Geometry { return orb.Collection{nil, orb.Collection{nil}} },
+			func() orb.Geometry { return orb.Collection{orb.Collection{nil, copyGeom(l).(orb.LineString)}, nil, pt} },
+			func() orb.Geometry { return orb.Collection{orb.MultiPoint(nil)} },
+			func() orb.Geometry { return orb.Collection{orb.MultiPoint{}} },
+			func() orb.Geometry { return orb.Collection{orb.Collection(nil)} },
+			func() orb.Geometry { return orb.Collection{orb.Collection{}} },
+			func() orb.Geometry { return orb.Collection{} },
+			func() orb.Geometry { return orb.Collection{nil, orb.LineString(nil), copyGeom(l).(orb.LineString)} },
+			func() orb.Geometry {
+				return orb.Collection{orb.Polygon(nil), orb.Ring(nil), orb.MultiPolygon(nil), orb.MultiLineString(nil)}
+			},
+			func() orb.Geometry { return orb.Polygon{nil} },
+			func() orb.Geometry { return orb.Polygon{{}} },
+			func() orb.Geometry { return orb.Polygon{nil, copyGeom(rg0).(orb.Ring)} },
+			func() orb.Geometry { return orb.Polygon{copyGeom(rg0).(orb.Ring), nil} },
+			func() orb.Geometry { return orb.MultiLineString{nil} },
+			func() orb.Geometry { return orb.MultiLineString{nil, copyGeom(l).(orb.LineString)} },
+			func() orb.Geometry { return orb.MultiLineString{copyGeom(l).(orb.LineString), nil} },
+			func() orb.Geometry { return orb.MultiPolygon{nil} },
+			func() orb.Geometry { return orb.MultiPolygon{{}} },
+			func() orb.Geometry { return orb.MultiPolygon{{nil}} },
+			func() orb.Geometry { return orb.MultiPolygon{nil, {copyGeom(rg0).(orb.Ring)}} },
+			func() orb.Geometry { return orb.MultiPolygon{{nil, copyGeom(rg0).(orb.Ring)}, nil} },
+		}
+		for _, f := range nilFam {
+			c.Case("geom", gsN(f()))
+			for _, h := range nilFam {
+				c.Case("pair", gsN(f())+" "+gsN(h()))
+			}
+			c.Case("pair", gsN(f())+" nil")
+			c.Case("pair", "nil "+gsN(f()))
+			for _, fs := range c06Factors {
+				c.Case("round", factorString(fs)+" "+gsN(f()))
+			}
+		}
+		// orb.Round: every AllGeometries value under every factor variant and default-factor variant
+		for _, g := range orb.AllGeometries {
+			for _, fs := range c06Factors {
+				c.Case("round", factorString(fs)+" "+gsN(g))
+			}
+			for _, d := range c06Defaults {
+				c.Case("roundd", fb(d)+" "+gsN(g))
+			}
+		}
+		// ties (half away from zero), the largest value below a tie, |x*f| around 2^52 / 2^53, overflow of
+		// x*f, NaN, infinities, signed zeros, subnormals
+		special := orb.MultiPoint{}
+		for _, x := range []float64{0.5, -0.5, 1.5, 2.5, -2.5, 0.49999999999999994, -0.49999999999999994, 1e-7, 5e-7, -5e-7,
+			4.9999999999999996e-7, 0.0000015, 1.0000005, 4503599627.3704955, 4503599627.370496, 9007199254.740992, 1e15, 1e16, 1e300,
+			-1e303, 1.7976931348623157e308, 5e-324, -5e-324, math.Inf(1), math.Inf(-1), math.NaN(), math.Copysign(0, -1), 0,
+			123.4567895, 123.45678949999999, -77.0000005} {
+			special = append(special, orb.Point{x, -x}, orb.Point{x + 1, x / 3})
+		}
+		for _, fs := range c06Factors {
+			c.Case("round", factorString(fs)+" "+gsN(copyGeom(special).(orb.MultiPoint)))
+			c.Case("round", factorString(fs)+" "+gsN(orb.Collection{copyGeom(special).(orb.MultiPoint), orb.Collection{orb.LineString(copyGeom(special).(orb.MultiPoint)), special[0]}, orb.Bound{Min: orb.Point{-1e303, -0.5}, Max: orb.Point{0.49999999999999994, 1.7976931348623157e308}}}))
+		}
+		for _, d := range c06Defaults {
+			c.Case("roundd", fb(d)+" "+gsN(copyGeom(special).(orb.MultiPoint)))
+			c.Case("roundd", fb(d)+" "+gsN(orb.Collection{copyGeom(special).(orb.MultiPoint), orb.Collection{orb.LineString(copyGeom(special).(orb.MultiPoint)), special[0]}, orb.Bound{Min: orb.Point{-1e303, -0.5}, Max: orb.Point{0.49999999999999994, 1.7976931348623157e308}}}))
+		}
+		// Orientation in float arithmetic: the reviewer's ring (float sign 0, reversed -1, exact area +1)
+		c.Case("orient", spts([]orb.Point{{0, 0}, {1, 0}, {1, 1}, {0, 1e16}, {1, 0}, {0, 0}}))
+		c.Case("orient", spts([]orb.Point{{0.5, 0.5}, {2.5, 0.5}, {2.5, 3.25}, {0.5, 0.5}}))
+		c.Case("orient", spts([]orb.Point{{0.1, 0.2}, {0.3, 0.2}, {0.3, 0.7}, {0.1, 0.2}}))
 		// alias structure: no sharing on every AllGeometries value; originals that share memory internally
 		for _, g := range orb.AllGeometries {
 			if g == nil || strings.HasPrefix(gs(g), "n") { // nil interface / typed nil slices own no memory
@@ -482,12 +832,41 @@ func genC06(c *Ctx) {
 		mode := []CoordMode{CoordSmallInt, CoordSmallInt, CoordInt, CoordHalf, CoordFloat}[r.Intn(5)]
 		o := GenOpts{Mode: mode, MaxPts: 5, MaxDepth: 3, TopNil: true, InnerNil: true}
 		g := genGeom(r, o, 0)
+		if r.Intn(5) == 0 { // collections with nil-interface members
+			g = genNilColl(r, o)
+		}
 		c.Case("geom", gsN(g))
 		h := mutateGeom(c, g)
 		if r.Intn(4) == 0 {
 			h = genGeom(r, o, 0)
 		}
 		c.Case("pair", gsN(g)+" "+gsN(h))
+		// orb.Round: all kinds incl. nil members, every coordinate pool incl. arbitrary bit patterns, ties
+		{
+			fs := c06Factors[r.Intn(len(c06Factors))]
+			rm := []CoordMode{CoordSmallInt, CoordHalf, CoordModest, CoordFloat, CoordFloat, CoordBits}[r.Intn(6)]
+			ro := GenOpts{Mode: rm, MaxPts: 5, MaxDepth: 3, TopNil: true, InnerNil: true}
+			rgm := genGeom(r, ro, 0)
+			if r.Intn(5) == 0 {
+				rgm = genNilColl(r, ro)
+			}
+			f := orb.DefaultRoundingFactor
+			if len(fs) > 0 {
+				f = float64(fs[0])
+			}
+			if r.Intn(3) == 0 {
+				rgm = tieCoords(r, rgm, f)
+			}
+			c.Case("round", factorString(fs)+" "+gsN(rgm))
+			if k%4 == 0 {
+				d := c06Defaults[r.Intn(len(c06Defaults))]
+				rg2 := genGeom(r, ro, 0)
+				if r.Intn(3) == 0 {
+					rg2 = genNilColl(r, ro)
+				}
+				c.Case("roundd", fb(d)+" "+gsN(rg2))
+			}
+		}
 		b1, b2, b3 := genBoundVal(c, mode), genBoundVal(c, mode), genBoundVal(c, mode)
 		p := genPoint(r, mode)
 		if r.Intn(3) == 0 { // a point on the boundary / corner of b1
@@ -498,6 +877,9 @@ func genC06(c *Ctx) {
 		c.Case("rev", spts(ps))
 		rg := genRing(r, []CoordMode{CoordSmallInt, CoordInt}[r.Intn(2)], 8)
 		c.Case("orient", spts(rg))
+		// … and in float arithmetic (twin on every ring; the reversal clause where the float signs are exact)
+		rgf := genRing(r, []CoordMode{CoordHalf, CoordHalf, CoordModest, CoordFloat, CoordBits}[r.Intn(5)], 8)
+		c.Case("orient", spts(rgf))
 		// alias structure of (original with internal sharing, clone)
 		oa := GenOpts{Mode: mode, MaxPts: 4, MaxDepth: 3}
 		ga := genGeom(r, oa, 0)
